@@ -261,6 +261,12 @@ fn shpk_strategy(_: &Ctx) -> BoxedStrategy<ShpkSpec> {
                 .into_iter()
                 .map(|(selector, pass_indices, sk, ck, mk, subview_keys, passes)| NodeSpec { selector, pass_indices, system_keys: sk[..system_keys.len()].to_vec(), scene_keys: ck[..scene_keys.len()].to_vec(), material_keys: mk[..material_keys.len()].to_vec(), subview_keys, passes })
                 .collect();
+            // one selector in sixteen is a value that reads like "nothing": 0 (the selector of an all-zero key set), 1, all ones, top bit
+            let marker = |x: u32| if x % 16 == 0 { [0u32, 1, u32::MAX, 0x8000_0000][(x >> 4) as usize % 4] } else { x };
+            for n in nodes.iter_mut() {
+                n.selector = marker(n.selector);
+            }
+            let aliases: Vec<(u32, u16)> = aliases.into_iter().map(|(s, i)| (marker(s), i)).collect();
             // selectors unique across nodes and aliases
             let mut seen = std::collections::HashSet::new();
             nodes.retain(|n| seen.insert(n.selector));
@@ -354,19 +360,43 @@ fn prop_shpk(s: &ShpkSpec, ctx: &Ctx) -> PResult {
     for (i, (g, w)) in pk.nodes.iter().zip(&s.nodes).enumerate() {
         ensure!(node_eq(g, w), "node-differs", "node {}: physis={:?} stored={:?}", i, g, w);
     }
-    // selector resolution
-    for (i, n) in s.nodes.iter().enumerate() {
-        let got = guard("find_node", || pk.find_node(n.selector).map(|x| node_eq(x, n)))?;
-        ensure_eq!(got, Some(true), "find-node-direct", "find_node({:#x}) should return node {}", n.selector, i);
-    }
-    for (sel, node) in &s.aliases {
-        let got = guard("find_node", || pk.find_node(*sel).map(|x| node_eq(x, &s.nodes[*node as usize])))?;
-        ensure_eq!(got, Some(true), "find-node-alias", "find_node({:#x}) should resolve through the alias to node {}", sel, node);
-    }
+    // selector resolution: what a selector resolves to is a function of the package alone - not of what was looked up before.
+    // Selectors nobody carries (0, 1, all ones among them) are asked first on the fresh package, then every node and alias in
+    // an order that depends on the case, then everything again in the opposite order.
+    let carried = |sel: u32| s.nodes.iter().position(|n| n.selector == sel).or_else(|| s.aliases.iter().find(|a| a.0 == sel).map(|a| a.1 as usize));
     let absent = s.nodes.iter().map(|n| n.selector).chain(s.aliases.iter().map(|a| a.0)).fold(0x1234_5678u32, |a, b| a.wrapping_mul(31).wrapping_add(b) | 1);
-    if !s.nodes.iter().any(|n| n.selector == absent) && !s.aliases.iter().any(|a| a.0 == absent) {
-        let got = guard("find_node", || pk.find_node(absent).is_some())?;
-        ensure!(!got, "find-node-absent", "find_node({:#x}) found a node for a selector nobody carries", absent);
+    let mut queries: Vec<u32> = vec![0, absent, 1, u32::MAX];
+    let mut rest: Vec<u32> = s.nodes.iter().map(|n| n.selector).chain(s.aliases.iter().map(|a| a.0)).collect();
+    if !rest.is_empty() {
+        let r = (util::fnv64(&bytes) % rest.len() as u64) as usize;
+        rest.rotate_left(r);
+        if util::fnv64(&bytes) & 0x100 != 0 {
+            rest.reverse();
+        }
+    }
+    queries.extend(rest);
+    let again: Vec<u32> = queries.iter().rev().copied().collect();
+    queries.extend(again);
+    for (k, sel) in queries.iter().enumerate() {
+        let want = carried(*sel);
+        let got = guard("find_node", || pk.find_node(*sel).map(|x| want.map(|w| node_eq(x, &s.nodes[w]))))?;
+        match (want, got) {
+            (Some(w), Some(Some(true))) => {
+                let _ = w;
+            }
+            (Some(w), _) => {
+                let slug = if s.nodes[w].selector == *sel { "find-node-direct" } else { "find-node-alias" };
+                return fail(slug, format!("query {}: find_node({:#x}) should return node {} ({})", k, sel, w, if got.is_none() { "returned nothing" } else { "returned another node" }));
+            }
+            (None, None) => {}
+            (None, Some(_)) => return fail("find-node-absent", format!("query {}: find_node({:#x}) found a node for a selector nobody carries", k, sel)),
+        }
+        if want.is_none() && k < 4 {
+            ctx.class("shpk:first-lookups-of-selectors-nobody-carries");
+        }
+        if want.is_some() && [0, 1, u32::MAX, 0x8000_0000].contains(sel) {
+            ctx.class("shpk:marker-like-selector-carried");
+        }
     }
     ctx.class(if s.dx11 { "shpk:DX11" } else { "shpk:DX9" });
     ctx.classf(format!("shpk:vertex-shaders:{}", s.vertex.len().min(3)));
@@ -412,7 +442,7 @@ fn prop_selector(lists: &Vec<Vec<u32>>, ctx: &Ctx) -> PResult {
 pub fn property() -> Property {
     Property {
         id: "C14",
-        rule: "materials: 0..6 texture paths (strings canonical: texture paths first, in order), uv / colour sets, extra strings, additional data of 4..9 bytes with random unrelated flag bits, table kind in {none, legacy dims 0, legacy dims 0x42, Dawntrail 0x53, opaque 0x5X with dye table, dye table without a colour table (legacy / Dawntrail: the two flag bits are independent)} with random half patterns in every row component, dye table where the reader supports it, 0..8 keys, 0..8 constants of 1..4 finite floats with gaps in the value list, 0..6 samplers over the 22 known usages. shader packages: DX9/DX11, 0..4 vertex / pixel shaders with 0..4 parameters of each kind (names in a shared heap, optionally de-duplicated), bytecode blobs, material parameters with / without defaults, package parameters, three key tables, 0..8 nodes with 0..16 passes, 0..6 aliases, tight (no trailing bytes) and roomy files. selector lists: 4 lists of 0..19 keys. Oracle: the generated values (private fields observed through Debug); colour / dye rows component by component from their own half / bit field (own half decoder); pixel bytecode exactly, vertex bytecode as the blob after its 8-byte header; find_node for every node selector, every alias and an absent selector; build_selector = sum key_i * 31^i mod 2^32 in u128 arithmetic. Non-trivial: material with a table whose first row has pairwise distinct halves; package with >= 1 alias and >= 2 nodes; selector lists with >= 2 keys. Distinct by hash of the file.",
+        rule: "materials: 0..6 texture paths (strings canonical: texture paths first, in order), uv / colour sets, extra strings, additional data of 4..9 bytes with random unrelated flag bits, table kind in {none, legacy dims 0, legacy dims 0x42, Dawntrail 0x53, opaque 0x5X with dye table, dye table without a colour table (legacy / Dawntrail: the two flag bits are independent)} with random half patterns in every row component, dye table where the reader supports it, 0..8 keys, 0..8 constants of 1..4 finite floats with gaps in the value list, 0..6 samplers over the 22 known usages. shader packages: DX9/DX11, 0..4 vertex / pixel shaders with 0..4 parameters of each kind (names in a shared heap, optionally de-duplicated), bytecode blobs, material parameters with / without defaults, package parameters, three key tables, 0..8 nodes with 0..16 passes, 0..6 aliases, tight (no trailing bytes) and roomy files. selector lists: 4 lists of 0..19 keys. Oracle: the generated values (private fields observed through Debug); colour / dye rows component by component from their own half / bit field (own half decoder); pixel bytecode exactly, vertex bytecode as the blob after its 8-byte header; find_node first for selectors nobody carries (0, 1, all ones, a computed one) on the fresh package, then for every node selector and alias (one in sixteen a marker-like value) in a case-dependent order, then all of them again in the opposite order - the answer must not depend on earlier look-ups; build_selector = sum key_i * 31^i mod 2^32 in u128 arithmetic. Non-trivial: material with a table whose first row has pairwise distinct halves; package with >= 1 alias and >= 2 nodes; selector lists with >= 2 keys. Distinct by hash of the file.",
         assumptions: &["vertex-shader bytecode beyond data_size - 8 is not compared; 8 spare bytes follow the file when it has vertex shaders", "dye table with dims 0x42 is not generated", "node and alias selectors are pairwise distinct; alias node indices are in range"],
         pre: None,
         post: None,
